@@ -219,16 +219,9 @@ func (f *Filter) FilterRequest(
 	// get into the cache cleared by that refresh.
 	gen := f.resCacheGen.Load()
 
-	var matched string
-	sub := hashableSubdomains(host)
-	for _, s := range sub {
-		if f.hashes.Matches(s) {
-			matched = s
-
-			break
-		}
-	}
-
+	// Check all subdomains against the same version of the hashes, so that a
+	// refresh that happens in between cannot hide a match.
+	matched := f.hashes.MatchesAny(hashableSubdomains(host))
 	if matched == "" {
 		f.setInCache(gen, cacheKey, "", host)
 
